@@ -55,6 +55,17 @@ KNOWN_CANDIDATES = {
 EPS = 2.0 ** -52
 
 
+def _metric(R, name, value):
+    """record a normalised error; keep it finite (the evidence file is strict JSON)"""
+    try:
+        v = float(value)
+    except Exception:
+        return
+    if not math.isfinite(v):
+        v = 1e300
+    R.metric(name, min(v, 1e300))
+
+
 # ====================================================================== area / interp
 
 def _pack_spec(freq, P, form):
@@ -95,8 +106,8 @@ def oracle_spec(case, R):
         special = min(m1) <= 1.01e-5
         near = near or min(m1) < 2e-3
         err = abs(a[c] - r)
-        R.metric("area_err/tol_near_s=-1" if special else "area_err/tol", err / tol)
-        R.metric("area_relerr_near_s=-1" if special else "area_relerr", err / abs(r))
+        _metric(R, "area_err/tol_near_s=-1" if special else "area_err/tol", err / tol)
+        _metric(R, "area_relerr_near_s=-1" if special else "area_relerr", err / abs(r))
         R.check(err <= tol, "area_vs_closed_form",
                 f"col {c}: area={a[c]!r} ref={r!r} err={err:.3e} tol={tol:.3e} slopes={slopes}")
         for s in slopes:
@@ -112,7 +123,7 @@ def oracle_spec(case, R):
         a2 = np.asarray(psd.area(np.column_stack([freq[k:], P[k:]])))
         scale = np.abs(a1) + np.abs(a2)
         e = np.abs(a1 + a2 - a) / (16 * EPS * nseg * scale)
-        R.metric("split_additivity_err/tol", e.max())
+        _metric(R, "split_additivity_err/tol", e.max())
         R.check(bool(np.all(e <= 1)), "area_not_additive_over_segments",
                 f"split at {k}: {a1.tolist()} + {a2.tolist()} != {a.tolist()}")
 
@@ -131,7 +142,7 @@ def oracle_spec(case, R):
             R.check(abs(b[c] - r2) <= tol2, "area_vs_closed_form",
                     f"(inserted point) col {c}: area={b[c]!r} ref={r2!r} tol={tol2:.3e}")
             e = abs((b[c] - a[c]) - (r2 - refs[c]))
-            R.metric("insert_additivity_err/tol", e / (tols[c] + tol2))
+            _metric(R, "insert_additivity_err/tol", e / (tols[c] + tol2))
             R.check(e <= tols[c] + tol2, "area_changes_with_inserted_break_point",
                     f"col {c}: {a[c]!r} -> {b[c]!r} (reference change {r2 - refs[c]:.3e})")
 
@@ -174,8 +185,12 @@ def oracle_spec(case, R):
             if kd == "out":
                 R.check(g == 0.0, "interp_nonzero_outside", f"f={fq[i]!r} -> {g!r}")
                 continue
-            e = abs(g - w) / (abs(w) * rel)
-            R.metric(f"interp_{kd}_err/tol", e)
+            if linear:      # straight line through (f1,p1),(f2,p2): error scales with max(p1,p2)
+                sg = min(max(int(np.searchsorted(freq, fq[i], side="right")) - 1, 0), nseg - 1)
+                e = abs(g - w) / (64 * EPS * max(P[sg, c], P[sg + 1, c]))
+            else:
+                e = abs(g - w) / (abs(w) * rel)
+            _metric(R, f"interp_{kd}_err/tol", e)
             R.check(e <= 1, "interp_at_own_frequency" if kd == "knot" else "interp_between",
                     f"col {c} f={fq[i]!r}: got {g!r} want {w!r} linear={linear}")
 
@@ -192,7 +207,7 @@ def oracle_spec(case, R):
     for c in range(cols):
         tol = tols[c] + 1e-11 * abs(refs[c])
         e = abs(quad[c] - a[c])
-        R.metric("area_vs_integral_of_interp_err/tol", e / tol)
+        _metric(R, "area_vs_integral_of_interp_err/tol", e / tol)
         R.check(e <= tol, "area_differs_from_integral_of_interp",
                 f"col {c}: area={a[c]!r} quadrature={quad[c]!r} tol={tol:.3e}")
 
@@ -366,11 +381,11 @@ def oracle_rescale(case, R):
     if amp.max() > 1e6:
         R.label("skip:end_band_barely_covered")
         return
-    tol = 1e-12 * (cum + P.max(axis=0) * np.abs(FU).reshape(-1, 1)) * amp
+    tol = 1e-13 * (cum + P.max(axis=0) * np.abs(FU).reshape(-1, 1)) * amp
     e_ms = np.abs(ms - msref) / tol
     e_p = np.abs(Pout - Pref) * width / tol
-    R.metric("ms_err/tol", e_ms.max())
-    R.metric("psd_err/tol", e_p.max())
+    _metric(R, "ms_err/tol", e_ms.max())
+    _metric(R, "psd_err/tol", e_p.max())
     inside = (FL >= FLin[0]) & (FU <= FUin[-1])
     R.label("bands_inside>0" if inside.any() else "bands_inside=0",
             "end_band_partial" if partial else "end_bands_covered")
@@ -383,7 +398,7 @@ def oracle_rescale(case, R):
             f"band {j} [{FL[j]!r},{FU[j]!r}]: P={Pout[j].tolist()} want {Pref[j].tolist()} "
             f"ext={ext} in={kin} out={kout}")
     tolv = tol.sum(axis=0)
-    R.metric("msv_err/tol", (np.abs(msv - msvref) / tolv).max())
+    _metric(R, "msv_err/tol", (np.abs(msv - msvref) / tolv).max())
     R.check(bool(np.all(np.abs(msv - msvref) <= tolv)), "msv_total",
             f"msv={msv.tolist()} want {msvref.tolist()}")
     R.check(bool(np.all(np.abs(msv - ms.sum(axis=0)) <= 64 * EPS * np.abs(ms).sum(axis=0))),
@@ -527,9 +542,10 @@ def oracle_resample(case, R):
                    f"len(tnew)={tn.shape} but {nout} samples returned (n={n} p={p} q={q})"):
             # sample k of the result is the signal at original position k*q/p
             want = t[0] + np.arange(nout) * (dt * q / p)
-            tolt = 16 * EPS * (abs(t0) + n * abs(dt))
+            # the step is taken from t[1]-t[0] (rounding ~eps|t0|) and multiplied up to n times
+            tolt = 8 * EPS * (abs(t0) + abs(dt)) * n + 16 * EPS * n * abs(dt)
             e = np.abs(tn - want)
-            R.metric("tnew_err/tol", e.max() / tolt)
+            _metric(R, "tnew_err/tol", e.max() / tolt)
             k = int(np.argmax(e))
             R.check(e.max() <= tolt, "tnew_positions",
                     f"n={n} p={p} q={q} t0={t0} dt={dt}: tnew[{k}]={tn[k]!r} but sample {k} "
@@ -542,13 +558,13 @@ def oracle_resample(case, R):
         scale = np.abs(d - m).max()
         if kind == "const":
             e = np.abs(y - d[0]).max() / (64 * EPS * max(abs(d[0]), 1e-300))
-            R.metric("const_err/tol", e)
+            _metric(R, "const_err/tol", e)
             R.check(e <= 1, "constant_not_reproduced",
                     f"c={d[0]!r} n={n} p={p} q={q} pts={pts}: max dev {np.abs(y - d[0]).max():.3e}")
             continue
         if pr == qr:
             e = np.abs(y - d).max() / (1e-12 * (scale + abs(m)))
-            R.metric("identity_err/tol", e)
+            _metric(R, "identity_err/tol", e)
             R.check(e <= 1, "p_equals_q_not_identity", f"n={n} p={p} q={q}")
         elif pr > qr:
             # original sample i sits at output index i*pr/qr whenever that is an integer
@@ -556,7 +572,7 @@ def oracle_resample(case, R):
             jj = ii // qr * pr
             ok = jj < nout
             e = np.abs(y[jj[ok]] - d[ii[ok]]).max() / (1e-12 * (scale + abs(m)))
-            R.metric("retain_err/tol", e)
+            _metric(R, "retain_err/tol", e)
             R.check(e <= 1, "original_samples_not_retained",
                     f"n={n} p={p} q={q} pts={pts}: max dev "
                     f"{np.abs(y[jj[ok]] - d[ii[ok]]).max():.3e} (signal scale {scale:.3g})")
@@ -570,9 +586,9 @@ def oracle_resample(case, R):
                 amp = sum(a for a, _, _ in tones[i])
                 err = np.abs(y[inner] - funs[i](pos[inner])).max()
                 lim = 1.25 * bound + 1e-11 * (amp + abs(offs[i]))
-                R.metric("bandlimited_err/bound", err / lim)
+                _metric(R, "bandlimited_err/bound", err / lim)
                 if pts >= 10:
-                    R.metric("bandlimited_abs_err_pts>=10", err / amp)
+                    _metric(R, "bandlimited_abs_err_pts>=10", err / amp)
                 R.label("accuracy_checked")
                 R.check(err <= lim, "bandlimited_accuracy",
                         f"n={n} p={p} q={q} pts={pts} beta={beta}: max interior error {err:.3e} "
@@ -580,7 +596,7 @@ def oracle_resample(case, R):
         if nvec > 1:
             one = np.asarray(dsp.resample(d, p, q, pts=pts, beta=beta))
             e = np.abs(one - y).max() / (1e-12 * (scale + abs(m)) + 1e-300)
-            R.metric("axis_err/tol", e)
+            _metric(R, "axis_err/tol", e)
             R.check(one.shape == y.shape and e <= 1, "axis_dependence",
                     f"layout={layout} axis={axis} vector {i}: differs from 1-d call by "
                     f"{np.abs(one - y).max():.3e}")
@@ -667,6 +683,17 @@ def oracle_fixtime(case, R):
     neg = bool(np.any(np.diff(t) < 0))
     R.label(f"mode:{case['mode']}", f"pack:{pack}", "hold" if hold else "nearest",
             "unsorted" if neg else "sorted", "drops" if ndrops else "no_drops")
+    if not np.any(np.diff(t) > 0):
+        # documented: no positive step in the whole time vector -> ValueError.  Demanded when
+        # every step is negative; with zero steps among them sorting is an acceptable answer too
+        try:
+            dsp.fixtime(old, sr, **kw)
+            if np.all(np.diff(t) < 0):
+                R.fail("accepts_time_vector_without_positive_steps")
+                return
+        except ValueError:
+            R.label("no_positive_steps_raised")
+            return
     if case["negstop"]:
         if neg:
             try:
@@ -709,11 +736,13 @@ def oracle_fixtime(case, R):
     tmax = max(abs(tk[0]), abs(tk[-1]), dt)
     tol_t = 16 * EPS * tmax
     e = np.abs(tn - (tn[0] + np.arange(len(tn)) / sr)).max()
-    R.metric("uniform_err/tol", e / tol_t)
+    _metric(R, "uniform_err/tol", e / tol_t)
     R.check(e <= tol_t, "time_base_not_uniform", f"max deviation {e:.3e} (tol {tol_t:.3e})")
     off = max(abs(tn[0] - tk[0]), abs(tn[-1] - tk[-1])) / dt
-    R.metric("span_offset/dt", off)
-    R.check(off <= 1.01, "time_base_off_span",
+    _metric(R, "span_offset/dt", off)
+    # aligned to the longest good section (<= dt/2 + jitter) and rounded to a whole number
+    # of steps (<= dt/2): the ends stay within 1.5 dt of the data (sanity bound)
+    R.check(off <= 1.5, "time_base_off_span",
             f"new [{tn[0]!r},{tn[-1]!r}] old [{tk[0]!r},{tk[-1]!r}] dt={dt}")
 
     # ---- every sample is the nearest (previous) input sample
@@ -747,11 +776,11 @@ def oracle_fixtime(case, R):
     if case["uniform"]:
         R.label("uniform_input")
         if R.check(len(tn) == len(t), "uniform_changed", f"{len(t)} -> {len(tn)} samples"):
-            if not (hold and tolp == 0.0):
+            if not hold or 0.0 < tolp < 1.0:     # tol 0 / 1: every threshold sits on a sample
                 R.check(bool(np.array_equal(yn, y)), "uniform_changed",
                         f"data changed; first difference at {int(np.argmax(yn != y))}")
             e = np.abs(tn - t).max()
-            R.metric("uniform_unchanged_err/tol", e / tol_t)
+            _metric(R, "uniform_unchanged_err/tol", e / tol_t)
             R.check(e <= tol_t, "uniform_changed", f"time moved by {e:.3e}")
 
     # ---- base: same samples, time base moved by at most half a step onto base + k/sr
@@ -768,7 +797,7 @@ def oracle_fixtime(case, R):
                     "base_shift", f"shift {sh[0]!r} (dt={dt}), spread {np.abs(sh - sh[0]).max():.3e}")
             kk = (base - tb[0]) * sr
             tol_k = 64 * EPS * (abs(kk) + (abs(base) + abs(tb[0])) * sr) + 1e-12
-            R.metric("base_err/tol", abs(kk - round(kk)) / tol_k)
+            _metric(R, "base_err/tol", abs(kk - round(kk)) / tol_k)
             R.check(abs(kk - round(kk)) <= tol_k, "base_not_hit",
                     f"(base - t[0])*sr = {kk!r} (base={base!r}, t[0]={tb[0]!r})")
             # observation only (not part of the contract decided here): the samples were
@@ -817,8 +846,8 @@ def fixtimes(draw):
 
 
 PARTS = [
-    Part("areainterp", oracle_spec, strategy=specs, quick=(4, 350), thorough=(16, 1400)),
-    Part("rescale", oracle_rescale, strategy=rescales, quick=(4, 500), thorough=(16, 2000)),
-    Part("resample", oracle_resample, strategy=resamples, quick=(4, 400), thorough=(16, 1600)),
-    Part("fixtime", oracle_fixtime, strategy=fixtimes, quick=(4, 400), thorough=(16, 1600)),
+    Part("areainterp", oracle_spec, strategy=specs, quick=(4, 700), thorough=(16, 2500)),
+    Part("rescale", oracle_rescale, strategy=rescales, quick=(4, 1000), thorough=(16, 3500)),
+    Part("resample", oracle_resample, strategy=resamples, quick=(4, 800), thorough=(16, 2800)),
+    Part("fixtime", oracle_fixtime, strategy=fixtimes, quick=(4, 800), thorough=(16, 2800)),
 ]
